@@ -374,8 +374,11 @@ def build_states(tier, seed, shipped, runs=None):
     return states, exhaustive
 
 
-def real_import(scratch, build_env, optimize=False, no_bytecode=False):
-    """Layer (c): a genuinely separate interpreter (optionally started with -O)."""
+def real_import(scratch, build_env, optimize=False, no_bytecode=False, how="main"):
+    """Layer (c): a genuinely separate interpreter (optionally started with -O / -B).  how: 'main' = plain
+    import on the main thread; 'thread' = the process's first import happens on a worker thread (lazy
+    import in a request handler / executor); 'hard-exit' = the importer ends with os._exit right after
+    the import, as prefork / multiprocessing workers do (no atexit hooks run)."""
     e = dict(os.environ)
     e["PYTHONPATH"] = scratch
     e.pop("BUILD_TZ_CACHE", None)
@@ -388,10 +391,17 @@ def real_import(scratch, build_env, optimize=False, no_bytecode=False):
         e["TMPDIR"] = other
     code = (
         "import sys; sys.path.insert(0, %r); sys.path.insert(1, %r)\n"
-        "import dateparser, dateparser.timezone_parser as tp\n"
-        "from checks.c19_crash import canon_table, probe_functions\n"
-        "import json; print('RESULT', json.dumps({'table': canon_table(tp), 'probe': probe_functions(tp), 'file': dateparser.__file__}))\n"
+        "def imp():\n"
+        "    import dateparser, dateparser.timezone_parser as tp\n"
+        "    from checks.c19_crash import canon_table, probe_functions\n"
+        "    import json; print('RESULT', json.dumps({'table': canon_table(tp), 'probe': probe_functions(tp), 'file': dateparser.__file__})); sys.stdout.flush()\n"
     ) % (scratch, env.VERIF_DIR)
+    if how == "thread":
+        code += "import threading\nerr = []\ndef run():\n    try:\n        imp()\n    except BaseException as e:\n        import traceback; traceback.print_exc(); err.append(e)\nt = threading.Thread(target=run); t.start(); t.join()\nsys.exit(1 if err else 0)\n"
+    elif how == "hard-exit":
+        code += "import os\nimp()\nsys.stderr.flush()\nos._exit(0)\n"
+    else:
+        code += "imp()\n"
     pr = subprocess.run([sys.executable] + (["-O"] if optimize else []) + (["-B"] if no_bytecode else []) + ["-c", code], env=e, capture_output=True, text=True, timeout=120, cwd="/")
     out = {"rc": pr.returncode, "err": pr.stderr.strip().splitlines()[-1:] if pr.returncode else []}
     for line in pr.stdout.splitlines():
@@ -414,10 +424,10 @@ def run_real(p):
     else:
         with open(cache, "wb") as f:
             f.write(data)
-    r1 = real_import(scratch, p["build_env"], p.get("optimize", False), p.get("no_bytecode", False))
+    r1 = real_import(scratch, p["build_env"], p.get("optimize", False), p.get("no_bytecode", False), p.get("how", "main"))
     c1 = _file_complete_subprocess(scratch)
     r2 = real_import(scratch, p["build_env"], p.get("optimize", False), p.get("no_bytecode", False))
-    return {"state": p["state"], "build_env": p["build_env"], "optimize": p.get("optimize", False), "no_bytecode": p.get("no_bytecode", False), "r1": r1, "complete1": c1, "r2": r2}
+    return {"state": p["state"], "build_env": p["build_env"], "optimize": p.get("optimize", False), "no_bytecode": p.get("no_bytecode", False), "how": p.get("how", "main"), "r1": r1, "complete1": c1, "r2": r2}
 
 
 CRASHER = r"""
@@ -524,6 +534,20 @@ def replay(args, rep, base):
         from checks import c19_simdisk
 
         return c19_simdisk.replay(rp, rep, base, args.replay)
+    if rp.get("layer") == "c":
+        with make_farm() as farm:
+            ref = farm.call("checks.c19_crash:run_state", {"scratch": base, "state": {"kind": "shipped"}, "build_env": False}, 120)[1]["first"]
+            st, val = farm.call("checks.c19_crash:run_real", {"scratch": base, "state": rp["state"], "build_env": rp["build_env"], "optimize": rp.get("optimize", False), "no_bytecode": rp.get("no_bytecode", False), "how": rp.get("how", "main")}, 400)
+        if st != "ok":
+            print("HARNESS replay leaf %s: %s" % (st, val))
+            return 2
+        bad = val["r1"]["rc"] != 0 or val["r2"]["rc"] != 0 or not val["complete1"]["ok"] or val["r1"].get("table") != ref["table"] or val["r2"].get("table") != ref["table"]
+        print(json.dumps({k: (v if k not in ("r1", "r2") else {x: y for x, y in v.items() if x != "table"}) for k, v in val.items()}, indent=1, default=repr))
+        if bad:
+            print("VIOLATION property=%s replay=%s" % (PROP, args.replay))
+            return 1
+        print("replay: no violation")
+        return 0
     if rp.get("layer") == "d":
         with make_farm() as farm:
             ref = farm.call("checks.c19_crash:run_state", {"scratch": base, "state": {"kind": "shipped"}, "build_env": False}, 120)[1]["first"]
@@ -638,6 +662,7 @@ def explore(args, rep, base, shipped, tier, seed):
         for i_, rp_ in enumerate(real_payloads):
             rp_["optimize"] = (i_ % 3 == 2)  # a third of the real interpreters run with -O (asserts compiled away)
             rp_["no_bytecode"] = (i_ % 3 == 1)  # another third with -B (sys.dont_write_bytecode)
+            rp_["how"] = ["main", "thread", "hard-exit", "main"][(i_ // 3) % 4]  # first import on a worker thread / importer ends with os._exit
         real_payloads[2] = {"scratch": base, "state": {"kind": "missing"}, "build_env": False, "optimize": True}
         real_payloads[3] = {"scratch": base, "state": {"kind": "empty"}, "build_env": False, "no_bytecode": True}
         rres = farm.map("checks.c19_crash:run_real", real_payloads, timeout=300)
@@ -659,8 +684,8 @@ def explore(args, rep, base, shipped, tier, seed):
             elif val["r2"].get("table") != ref["table"]:
                 bad.append(("I4-second-table-differs", ""))
             if bad:
-                sig = {"layer": "c", "state_kind": val["state"]["kind"], "invariant": bad[0][0], "detail": bad[0][1], "python_O": val.get("optimize", False), "python_B": val.get("no_bytecode", False)}
-                rep.violation(sig, {"layer": "c", "run": "real-%s-%s" % (val["state"]["kind"], val["state"].get("k", "")), "state": val["state"], "build_env": val["build_env"], "seed": seed, "broken": bad}, "real interpreter, state %r: %s" % (val["state"], bad))
+                sig = {"layer": "c", "state_kind": val["state"]["kind"], "invariant": bad[0][0], "detail": bad[0][1], "python_O": val.get("optimize", False), "python_B": val.get("no_bytecode", False), "how": val.get("how", "main")}
+                rep.violation(sig, {"layer": "c", "run": "real-%s-%s" % (val["state"]["kind"], val["state"].get("k", "")), "state": val["state"], "build_env": val["build_env"], "optimize": val.get("optimize", False), "no_bytecode": val.get("no_bytecode", False), "how": val.get("how", "main"), "seed": seed, "broken": bad}, "real interpreter, state %r: %s" % (val["state"], bad))
         # layer (d): real crash in the middle of the write, then real imports
         drng = seeds.rng_for(seed, PROP, "crash")
         n_crash = 16 if tier == "quick" else 400
